@@ -268,6 +268,7 @@ func (ks *KeyStore) SignHash(a accounts.Account, hash []byte) ([]byte, error) {
 		return nil, ErrLocked
 	}
 	// Sign the hash using plain ECDSA operations
+	verifSigned(1)
 	return crypto.Sign(hash, unlockedKey.PrivateKey)
 }
 
@@ -283,6 +284,7 @@ func (ks *KeyStore) SignHashAllowed(a accounts.Account, hash []byte) ([]byte, er
 		return nil, ErrLocked
 	}
 	// Sign the hash using plain ECDSA operations
+	verifSigned(2)
 	return crypto.Sign(hash, unlockedKey.PrivateKey)
 }
 
@@ -299,6 +301,7 @@ func (ks *KeyStore) SignHashOK(a accounts.Account, rlpenc, hash []byte) ([]byte,
 		return nil, ErrLocked
 	}
 	// Sign the hash using plain ECDSA operations
+	verifSigned(3)
 	return crypto.Sign(hash, unlockedKey.PrivateKey)
 }
 
@@ -335,6 +338,7 @@ func (ks *KeyStore) SignTx(a accounts.Account, tx *types.Transaction, chainID *b
 	if !found {
 		return nil, ErrLocked
 	}
+	verifSigned(4)
 	// Depending on the presence of the chain ID, sign with EIP155 or homestead
 	if chainID != nil {
 		return types.SignTx(tx, types.NewEIP155Signer(chainID), unlockedKey.PrivateKey)
@@ -354,6 +358,7 @@ func (ks *KeyStore) SignHashWithPassphrase(a accounts.Account, passphrase string
 		return nil, err
 	}
 	defer zeroKey(key.PrivateKey)
+	verifSigned(5)
 	return crypto.Sign(hash, key.PrivateKey)
 }
 
@@ -369,6 +374,7 @@ func (ks *KeyStore) SignTxWithPassphrase(a accounts.Account, passphrase string, 
 	}
 	defer zeroKey(key.PrivateKey)
 
+	verifSigned(6)
 	// Depending on the presence of the chain ID, sign with EIP155 or homestead
 	if chainID != nil {
 		return types.SignTx(tx, types.NewEIP155Signer(chainID), key.PrivateKey)
